@@ -55,7 +55,8 @@ void *gh_det_curval; cv_i64 gh_det_val;            /* state->_cur_val and the va
 #define HAS_ACQ(o) ((o) == 1 || (o) == 2 || (o) == 4 || (o) == 5)
 
 #ifdef CV_SG_SEQ_ATOMICS
-/* bounded single-threaded drives: no registered chain, no environment; the unit links sequential atomic primitives instead */
+/* bounded single-threaded drives: no registered chain, no environment; the unit links sequential atomic primitives (lib/rt_atomic_seq.c)
+ * or reads std::atomic<T*> at member-function level instead */
 static void protS_env_detach(void) {}
 static void protS_env(void) {}
 #else
@@ -170,7 +171,10 @@ static void cv_sg_release_strong(struct cv_sg_cb *cb) {
     int role = gh_S_role, excl = gh_S_excl;
     cv_sg_depth = 1; gh_sg_disposed++;
     gh_S_role = S_ROLE_EMIT; gh_S_excl = 1;       /* nobody holds a strong reference any more: nobody can push, nobody else emits */
+    cb->weak++;                                   /* libstdc++: the strong owners together hold one weak reference, given up only AFTER the pointee
+                                                     was destroyed - listeners released by ~state may drop their weak handles meanwhile */
     CV_SG_DISPOSE(CV_SG_OBJ(cb));                 /* the real translated state::~state() */
+    cb->weak--;
     gh_S_role = role; gh_S_excl = excl; cv_sg_depth = 0; }
   cv_sg_maybe_free(cb);
 }
